@@ -6,6 +6,7 @@ package harness
 // stuck-machine termination.
 
 import (
+	"flag"
 	"fmt"
 	"os"
 	"strings"
@@ -42,6 +43,8 @@ func c08Scenarios(cfg runCfg) []Scenario {
 			out = append(out, Scenario{Family: "steps", Seed: mix(cfg.seed, 8, 77, uint64(cfg.shard)), N: st, K: inv})
 		}
 	}
+	// -short halves the number of steps - of every Repeat call alike, however many came before it
+	out = append(out, Scenario{Family: "steps", Seed: mix(cfg.seed, 8, 78, uint64(cfg.shard)), N: 40, K: 2})
 	return out
 }
 
@@ -504,8 +507,16 @@ func c08Run(t *testing.T, sc Scenario, res *Result) {
 		lg := &Log{keepAll: true}
 		setFlags(map[string]string{"rapid.steps": fmt.Sprint(sc.N), "rapid.checks": "200", "rapid.nofailfile": "true", "rapid.seed": fmt.Sprint(sc.Seed%100000 + 1)})
 		tb := newTB("C08steps")
-		runCheck(tb, lg.prop(p.body()))
 		key := fmt.Sprintf("steps=%d", sc.N)
+		if sc.K == 2 {
+			if err := flag.Set("test.short", "true"); err != nil {
+				return
+			}
+			defer flag.Set("test.short", "false")
+			flag.Set("rapid.checks", "1000") // a fifth of them is run
+			key += "short"
+		}
+		runCheck(tb, lg.prop(p.body()))
 		if c08stat[key] == nil {
 			c08stat[key] = &struct{ cases, completed, attempts int64 }{}
 		}
